@@ -14,7 +14,9 @@ RULE = (
     "update_state (positions keyed by variable name, value-node name, mixed; 1..all keys; states from the "
     "original model, from earlier results and from other history branches), extract_position, log_prob, "
     "jit(update_state), vmap(update_state) on the same LieselInterface object, interleaved with mutations "
-    "of the user's model; plus Dict/Dataclass/NamedTuple interface law histories. non-trivial = history "
+    "of the user's model and with construction of further interfaces while the user's model has pending updates; "
+    "programs with user-supplied log_prob nodes; generated statistical models judged against the scipy oracle; keys "
+    "that are both a node name and another variable's name; plus Dict/Dataclass/NamedTuple interface law histories. non-trivial = history "
     "with >= 2 calls on the same (position,state) separated by other calls, and a jit and a vmap call; "
     "distinct by (program, history) hash"
 )
